@@ -193,6 +193,17 @@ CHECKS = {
         "compared over fixed / random lists by the harness.",
    technique="TLA+ equality-by-key and aliasing machine checked by TLC; every pair / history replayed on real objects",
    design="4 C18"),
+ "C16": dict(
+   text="TLC checks on BitLengthSets.tla that the enumeration the solver design performs for a repetition depends on the "
+        "count only through EquivK(k, d) < 2d and that residue sets never exceed the divisor (CostIndependentOfK, CostBounded, "
+        "Reduction). With the solver hooks on, a family of 17 definitions is read and queried for capacity exponents 1..63; "
+        "every recorded solver event is validated by TLC against the design (TraceSolver.tla), and the instruction count "
+        "inside the bit length set package must be identical for capacities from 2**8 upward and below a fixed budget.",
+   note="Wall time and memory are not decided (reported only); the decided statement is its operation-count form. The budget "
+        "(4*10^7 instructions, ~7x the unchanged tree) and a 180 s terminator for work stuck in C-level iteration are the only "
+        "thresholds.",
+   technique="TLA+ cost lemmas checked by TLC; recorded solver events validated by TLC; deterministic instruction counts compared",
+   design="4 C16"),
 }
 
 NOT_YET = "check not built yet in this round (see DESIGN.md section 9 build order)"
